@@ -700,9 +700,15 @@ mod huffman {
                         let byte = (self.pending_byte << (8 - self.pending_bits)) as usize;
                         match &map[byte] {
                             Decode::Void => {
+                                if self.pending_bits == 0 {
+                                    return None;
+                                }
                                 panic!("invalid decoding map");
                             }
                             Decode::Further(_) => {
+                                if self.pending_bits == 0 {
+                                    return None;
+                                }
                                 panic!("malformed data: decode incomplete (Further)");
                             }
                             Decode::Symbol(s, bits) => {
